@@ -43,7 +43,8 @@ Definition max_list (l : list N) : N := fold_right N.max 0 l.
 
 Lemma max_list_ge l x : In x l -> x <= max_list l.
 Proof.
-  induction l as [|a r IH]; cbn; [intros []|]. intros [->|H]; [lia|]. specialize (IH H). lia.
+  unfold max_list. induction l as [|a r IH]; cbn [fold_right In]; [intros []|].
+  intros [->|H]; [lia|]. specialize (IH H). lia.
 Qed.
 
 Definition listed_classes (A B : aut) : list N := 0 :: classes_of A ++ classes_of B.
@@ -344,12 +345,16 @@ Theorem iso_sound (A B : aut) (R : rel) : iso_check A B R = true ->
   (forall a, In a (state_ids A) -> exists b, In (a, b) R) /\
   (forall b, In b (state_ids B) -> exists a, In (a, b) R).
 Proof.
-  unfold iso_check. intros H. repeat (apply andb_true_iff in H; destruct H as [H ?]).
+  unfold iso_check. intros H.
+  apply andb_true_iff in H. destruct H as [H HB].
+  apply andb_true_iff in H. destruct H as [H HA].
+  apply andb_true_iff in H. destruct H as [H1 H2].
+  rewrite forallb_forall in HA, HB.
   repeat split.
-  - apply nodup_fst_fun. exact H.
-  - apply nodup_snd_inj. assumption.
-  - intros a Ha. match goal with F : forallb _ (state_ids A) = true |- _ => rewrite forallb_forall in F; specialize (F a Ha) end.
-    apply memN_In in H2. apply in_map_iff in H2. destruct H2 as ([x y] & E & Hin). cbn in E. subst. eauto.
-  - intros b Hb. match goal with F : forallb _ (state_ids B) = true |- _ => rewrite forallb_forall in F; specialize (F b Hb) end.
-    apply memN_In in H0. apply in_map_iff in H0. destruct H0 as ([x y] & E & Hin). cbn in E. subst. eauto.
+  - apply nodup_fst_fun. exact H1.
+  - apply nodup_snd_inj. exact H2.
+  - intros a Ha. specialize (HA a Ha). apply memN_In in HA. apply in_map_iff in HA.
+    destruct HA as ([x y] & E & Hin). cbn in E. subst. eauto.
+  - intros b Hb. specialize (HB b Hb). apply memN_In in HB. apply in_map_iff in HB.
+    destruct HB as ([x y] & E & Hin). cbn in E. subst. eauto.
 Qed.
